@@ -51,7 +51,7 @@ def _weaken_list(o: HObj):
 
 def _weaken_dict(o: HObj):
     if o.exact:
-        o.writes = [(C(k), v, o.created_ctx) for k, v in o.kv.items()]
+        o.writes = [(k.term if hasattr(k, 'term') else C(k), v, o.created_ctx) for k, v in o.kv.items()]
         o.sure = set(o.kv.keys())
         o.kv = {}
         o.exact = False
